@@ -79,8 +79,8 @@ for _i in range(1, 21):
                                    "every recorded API call validated against CatImpl and judged by the CatMon monitors"}
 
 PROPS["C01"]["families"] = [GENERAL_S, fam("fam_prefix", 40, 800)]
-PROPS["C02"]["families"] = [GENERAL_S, fam("fam_prefix", 30, 500), fam("fam_lanes", 20, 200), fam("fam_casefold", 10, 200), fam("fam_lanes_wide", 12, 36), fam("fam_implicit", 24, 400)]
-PROPS["C04"]["families"] = [GENERAL_S, fam("fam_num", 60, 1500)]
+PROPS["C02"]["families"] = [GENERAL_S, fam("fam_prefix", 30, 500), fam("fam_lanes", 20, 200), fam("fam_casefold", 10, 200), fam("fam_lanes_wide", 12, 36), fam("fam_implicit", 24, 400), fam("fam_samename", 24, 288)]
+PROPS["C04"]["families"] = [GENERAL_S, fam("fam_num", 60, 1500), fam("fam_bytes", 16, 64)]
 PROPS["C19"]["families"] = [GENERAL_S, fam("fam_desc", 60, 1500), fam("fam_textfit", 64, 1600)]
 
 def mc(name, quick=True, **kw):
@@ -91,8 +91,8 @@ def mc(name, quick=True, **kw):
 
 MC = {
     "C01": [mc("MC_Line")], "C02": [mc("MC_Line")], "C03": [mc("MC_Line"), mc("MC_Args")], "C04": [mc("MC_Args"), mc("MC_FnNum", module="MC_Fn", function_level=True)], "C05": [mc("MC_Args"), mc("MC_FnBuf", module="MC_Fn", function_level=True)],
-    "C06": [mc("MC_Line")], "C07": [mc("MC_FnNum", module="MC_Fn", function_level=True), mc("MC_FnBuf", module="MC_Fn", function_level=True)], "C08": [mc("MC_Args"), mc("MC_FnBuf", module="MC_Fn", function_level=True)], "C09": [mc("MC_Flags")], "C10": [mc("MC_Codes")],
-    "C11": [mc("MC_Sched")], "C12": [mc("MC_Sched")], "C13": [mc("MC_Ring"), mc("MC_Sched"), {"name": "Apalache_CatRing", "apalache": True, "quick": True}], "C14": [mc("MC_Hold"), mc("MC_HoldNest", module="MC_Hold", quick=False, cfg="MC_HoldNest", cfg_thorough="MC_HoldNest")],
+    "C06": [mc("MC_Line")], "C07": [mc("MC_FnNum", module="MC_Fn", function_level=True), mc("MC_FnBuf", module="MC_Fn", function_level=True)], "C08": [mc("MC_Args"), mc("MC_FnBuf", module="MC_Fn", function_level=True)], "C09": [mc("MC_Flags")], "C10": [mc("MC_Codes"), mc("MC_Ext", quick=False)],
+    "C11": [mc("MC_Sched")], "C12": [mc("MC_Sched")], "C13": [mc("MC_Ring"), mc("MC_Sched"), mc("MC_Ext"), {"name": "Apalache_CatRing", "apalache": True, "quick": True}], "C14": [mc("MC_Hold"), mc("MC_HoldNest", module="MC_Hold", quick=False, cfg="MC_HoldNest", cfg_thorough="MC_HoldNest")],
     "C15": [mc("MC_Live"), mc("MC_Sched", quick=False)], "C16": [mc("MC_Mutex")], "C17": [mc("MC_Threads", module="CatThreads")], "C18": [mc("MC_Sched"), mc("MC_Hold")],
     "C19": [mc("MC_List")], "C20": [mc("MC_Hist")],
 }
@@ -135,15 +135,15 @@ CLAIMS = {
 }
 
 PROPS["C03"]["families"] = [GENERAL_S, fam("fam_bounds", 40, 800), fam("fam_buf", 20, 400), fam("fam_num", 20, 400), fam("fam_lanes_exact", 12, 200)]
-PROPS["C05"]["families"] = [GENERAL_S, fam("fam_buf", 60, 1500)]
-PROPS["C06"]["families"] = [GENERAL_S, fam("fam_bounds", 50, 1000), fam("fam_textfit", 32, 800)]
+PROPS["C05"]["families"] = [GENERAL_S, fam("fam_buf", 60, 1500), fam("fam_bytes", 16, 64)]
+PROPS["C06"]["families"] = [GENERAL_S, fam("fam_bounds", 50, 1000), fam("fam_textfit", 32, 800), fam("fam_codes", 18, 300)]
 PROPS["C07"]["families"] = [fam("fam_round", 40, 1500), fam("fam_round_exh8", 12, 60), fam("fam_access", 20, 300)]
 PROPS["C08"]["families"] = [GENERAL_S, fam("fam_access", 60, 1500), fam("fam_wo_twins", 48, 1200)]
-PROPS["C09"]["families"] = [GENERAL_S, fam("fam_flags", 40, 1000), fam("fam_implicit", 24, 400)]
-PROPS["C10"]["families"] = [GENERAL_S, fam("fam_codes", 40, 1000)]
-PROPS["C11"]["families"] = [GENERAL_S, fam("fam_sched", 48, 1200), fam("fam_hold", 24, 400)]
+PROPS["C09"]["families"] = [GENERAL_S, fam("fam_flags", 40, 1000), fam("fam_implicit", 24, 400), fam("fam_samename", 12, 144)]
+PROPS["C10"]["families"] = [GENERAL_S, fam("fam_codes", 40, 1000), fam("fam_extcmd", 16, 300)]
+PROPS["C11"]["families"] = [GENERAL_S, fam("fam_sched", 48, 1200), fam("fam_hold", 24, 400), fam("fam_extcmd", 12, 200)]
 PROPS["C12"]["families"] = [GENERAL_S, fam("fam_sched", 32, 800), fam("fam_conf", 48, 1200)]
-PROPS["C13"]["families"] = [GENERAL_S, fam("fam_ring", 24, 400), fam("fam_quiesce", 10, 200)]
+PROPS["C13"]["families"] = [GENERAL_S, fam("fam_ring", 24, 400), fam("fam_quiesce", 10, 200), fam("fam_extcmd", 16, 300)]
 PROPS["C14"]["families"] = [GENERAL_S, fam("fam_hold", 40, 800)]
 PROPS["C15"]["families"] = [GENERAL_S, fam("fam_quiesce", 40, 800), fam("fam_sched", 16, 200)]
 PROPS["C16"]["families"] = [fam("fam_mutex", 64, 1600), {"name": "fam_general_mutex", "gen": fam_general(lines=3, mutex=True), "quick": 30, "thorough": 600}]
